@@ -265,7 +265,7 @@ func checkDiagnostics(uri string, d *docModel, f *lspx.Frame) error {
 	if err := json.Unmarshal(f.Params, &p); err != nil {
 		return fmt.Errorf("publishDiagnostics params do not parse: %v", err)
 	}
-	if p.Version != d.version && p.Version != 0 {
+	if p.Version != d.version {
 		return fmt.Errorf("last diagnostics for %s are for version %d, the document is at version %d", uri, p.Version, d.version)
 	}
 	_, errs := gosqlx.ParseWithRecovery(d.text)
